@@ -200,6 +200,15 @@ def generate(rng, tier, idx):
         if body:
             reps = 12000 // max(1, sum(len(l) + 1 for l in body)) + 1
             sc['in_text'] = '\n'.join(lines[:(1 if with_headers else 0)] + body * reps) + '\n'
+    if family == 'pipe' and front != 'stream' and rng.random() < 0.12:
+        # the sqlite front-ends writing CSV to stdout
+        sc['front'] = rng.choice(['sqlite', 'sqlite_cli'])
+        sc['out_to'] = 'stdout'
+        sc['in_from'] = 'file'
+        sc['with_headers'] = False
+        sc['rows'] = [r[:3] + [''] * (3 - len(r)) for r in rows] or [['1', 'v1', 'r']]
+        sc['join_rows'] = join_rows or workload.gen_join_table(rng, 2)
+        sc['color'] = False
     if family == 'badbyte':
         target = 'join' if (sc['join_text'] and rng.random() < 0.35) else 'input'
         data_len = len((sc['join_text'] if target == 'join' else sc['in_text']).encode('utf-8'))
